@@ -6,7 +6,10 @@ _F = None
 
 
 def _call(x):
-    return _F(x)
+    r = _F(x)
+    from . import env
+    env.check_escapes()  # a job whose code under test reached the file system past the layer has no verdict
+    return r
 
 
 def pmap(f, items, workers=None, chunksize=1):
@@ -17,7 +20,7 @@ def pmap(f, items, workers=None, chunksize=1):
     _F = f
     workers = min(workers or os.cpu_count() or 1, 16, len(items))
     if workers <= 1:
-        return [f(x) for x in items]
+        return [_call(x) for x in items]
     ctx = multiprocessing.get_context("fork")
     with ctx.Pool(workers) as pool:
         return pool.map(_call, items, chunksize)
